@@ -52,6 +52,8 @@ SCHEMA = {
     "gglwe_to_ggsw_key_compressed": [("rep", GGC)],
     "blind_rotation_key": [("dist",), ("rep", GG)],
     "blind_rotation_key_compressed": [("dist",), ("rep", GGC)],
+    "circuit_bootstrapping_key": [("dist",), ("rep", GG), ("rep", [("key64",), ("u64",)] + GG), ("rep", GG)],
+    "bdd_key": [("dist",), ("rep", GG), ("rep", [("key64",), ("u64",)] + GG), ("rep", GG), ("opt", [("u32",), ("u32",)] + GG), ("u32",), ("u32",)] + GG,
 }
 HAL = ("vec", "scalar", "mat")
 LEAF_HDR = {"v": 5, "s": 3, "m": 6}          # u64 header words incl. len
@@ -80,7 +82,7 @@ def parse(ty, data):
     def walk(items):
         for it in items:
             k = it[0]
-            if k in ("u32", "u64"):
+            if k in ("u32", "u64", "key64"):
                 w = 4 if k == "u32" else 8
                 st["hdr"].append((pos[0], w, "field"))
                 st["F"].append(le(take(w)))
@@ -109,6 +111,14 @@ def parse(ty, data):
                 ln = ws[-1]
                 st["pay"].append((pos[0], ln))
                 st["L"].append((it[1], ws[:-1], ln, take(ln), base))
+            elif k == "opt":
+                st["hdr"].append((pos[0], 1, "opttag"))
+                tg = le(take(1))
+                st["F"].append(tg)
+                if tg == 1:
+                    walk(it[1])
+                elif tg != 0:
+                    raise ParseError("opttag")
             elif k == "rep":
                 st["hdr"].append((pos[0], 8, "count"))
                 c = le(take(8))
@@ -192,6 +202,9 @@ def grids():
     brk = [(4, 2, 8, 24, 2, 1), (4, 3, 8, 16, 1, 1), (2, 2, 8, 24, 1, 2), (8, 2, 8, 24, 2, 1)]
     g["blind_rotation_key"] = brk
     g["blind_rotation_key_compressed"] = brk
+    # n_glwe, n_lwe, base2k, k, dnum, rank, dsize, k_atk [, has_ks_glwe]
+    g["circuit_bootstrapping_key"] = [(4, 2, 8, 16, 1, 1, 1, 16), (8, 2, 8, 24, 2, 1, 1, 24), (2, 1, 8, 16, 1, 1, 1, 16)]
+    g["bdd_key"] = [(4, 2, 8, 16, 1, 1, 1, 16, 1), (4, 2, 8, 16, 1, 1, 1, 16, 0), (8, 1, 8, 24, 2, 1, 1, 24, 1)]
     return g
 
 
@@ -213,7 +226,7 @@ def mutations(ty, stream, rng, quick):
     for c, b in p["S"]:
         pass
     # truncations
-    step = 8 if quick else 1
+    step = 8 if (quick or len(stream) > 4096) else 1          # thorough: every truncation point of objects up to 4 KiB
     n = len(stream)
     pts = sorted(set([x for x in inhdr if x <= n] + list(range(0, n, step)) + [n - 1, n]))
     # quick tier: thin the payload truncations of long streams
@@ -309,8 +322,14 @@ def randomize(ty, p, rng):
                 schema_fields.append("u32")
             elif k == "u64":
                 schema_fields.append("u64")
+            elif k == "key64":
+                schema_fields.append("count")
             elif k == "dist":
                 schema_fields.extend(["tag", "pl"])
+            elif k == "opt":
+                schema_fields.append("count")
+                if reps.pop(0) == 1:
+                    walk(itx[1], reps)
             elif k == "rep":
                 schema_fields.append("count")
                 cnt = reps.pop(0)
@@ -324,10 +343,16 @@ def randomize(ty, p, rng):
         nonlocal pos
         for itx in items:
             k = itx[0]
-            if k in ("u32", "u64"):
+            if k in ("u32", "u64", "key64"):
                 pos += 1
             elif k == "dist":
                 pos += 2
+            elif k == "opt":
+                c = p["F"][pos]
+                counts.append(c)
+                pos += 1
+                if c == 1:
+                    first(itx[1])
             elif k == "rep":
                 c = p["F"][pos]
                 counts.append(c)
@@ -358,6 +383,80 @@ def randomize(ty, p, rng):
     for c, b in p["S"]:
         S.append((c, bytes(rng.below(256) for _ in range(32 * c))))
     return F, S
+
+
+def seedpat(v, i):
+    return bytes(((v * 31) + i * 7 + j * 13 + 1) & 255 for j in range(32))
+
+
+def rt_expect(ty, p, v):
+    """(expected wrapper fields, expected seed pattern value or None) of the real writer's stream for an object built by
+    `pvh ser rt type=ty p=.. v=..`; None when the type's fields are not pinned here (checked through the model instead)."""
+    v0 = v[0] if v else 0
+    v1 = v[1] if len(v) > 1 else 0
+    m32 = (1 << 32) - 1
+    if ty in ("glwe", "lwe"):
+        return [v0 & m32], None
+    if ty == "gglwe":
+        return [p[1], p[6]], None
+    if ty in ("ggsw", "glwe_tensor_key"):
+        return [p[1], p[5]], None
+    if ty == "glwe_switching_key":
+        return [v0 & m32, v1 & m32, p[1], p[6]], None
+    if ty in ("lwe_switching_key", "lwe_to_glwe_key", "glwe_to_lwe_key"):
+        return [v0 & m32, v1 & m32, p[1], 1], None
+    if ty == "glwe_automorphism_key":
+        return [v0 % U64, p[1], p[5]], None
+    if ty == "glwe_public_key":
+        tag, pl = v0, v1
+        if tag in (0, 2, 4):
+            pl = pl % (1 << 56)
+        elif tag in (1, 3):
+            pl = (pl >> 8) << 8
+        else:
+            pl = 0
+        return [tag, pl, p[1]], None
+    if ty == "gglwe_to_ggsw_key":
+        return [p[3]] + [p[1], p[5]] * p[3], None
+    if ty == "glwe_compressed":
+        return [p[1], p[3]], v0
+    if ty == "lwe_compressed":
+        return [p[1], p[0]], None
+    if ty == "gglwe_compressed":
+        return [p[2], p[1], p[6], p[4]], v0
+    if ty in ("ggsw_compressed", "glwe_tensor_key_compressed"):
+        return [p[2], p[1], p[5], p[3]], v0
+    if ty == "glwe_switching_key_compressed":
+        return [v0 & m32, v1 & m32, p[2], p[1], p[6], p[4]], v0 ^ v1
+    if ty == "glwe_automorphism_key_compressed":
+        return [v0 % U64, p[2], p[1], p[5], p[3]], v1
+    if ty == "gglwe_to_ggsw_key_compressed":
+        return [p[3]] + [p[2], p[1], p[5], p[3]] * p[3], None
+    if ty == "blind_rotation_key":
+        return [6, 0, p[1]] + [p[2], 1] * p[1], None
+    if ty == "blind_rotation_key_compressed":
+        return [6, 0, p[1]] + [p[3], p[2], 1, p[5]] * p[1], None
+    return None, None
+
+
+RT_VALUES = {
+    "u32": [[0, 0], [1, 2], [1 << 31, (1 << 32) - 1], [(1 << 32) - 1, 1 << 31], [12, 4096]],
+    "p": [[U64 - 5], [5], [1 << 63], [(1 << 63) - 1], [0], [U64 - 1], [U64 - (1 << 31)]],
+}
+
+
+def rt_values(ty):
+    if "automorphism" in ty:
+        return [x + [7 * (k + 1)] for k, x in enumerate(RT_VALUES["p"])]
+    if ty == "glwe_public_key":
+        out = []
+        for tag in range(7):
+            for pl in (0, 1, 256, (1 << 56) - 1, 4602678819172646912, 4599075939470750515, 0x3FE0000000000100):
+                if tag in (0, 2, 4) and pl >= (1 << 56):
+                    continue          # a Hamming weight / block size >= 2^56 is not an admissible parameter
+                out.append([tag, pl])
+        return out
+    return RT_VALUES["u32"]
 
 
 def run_harness(ctx, binp, lines, limit=True):
@@ -624,6 +723,60 @@ def run(ctx):
                 known_counts[KEY_ALLOC] += 1
                 known_first.setdefault(KEY_ALLOC, {"type": ty, "p": G[ty][0], "in": hx(data), "exit": rc, "observed": "process abort (memory allocation failed)" if not out else ho,
                                                    "rlimit_as": MEM})
+
+        # ---- implementation-level round trip: known field values (negative / extreme), real writer -> real reader,
+        #      object equality + every exposed field + the writer's header fields against the construction parameters
+        rl = []
+        rmeta = []
+        for ty in types:
+            for pi, pp in enumerate(G[ty][:2]):
+                for v in rt_values(ty):
+                    rl.append(f"{len(rl)} rt type={ty} p={','.join(map(str, pp))} v={','.join(map(str, v))} fill={3 + pi}")
+                    rmeta.append((ty, pp, v))
+        rt_fail = []
+        for prof, binp in bins.items():
+            rc, out = run_harness(ctx, binp, rl)
+            if len(out) != len(rl):
+                broken.append(f"harness rt ({prof}) stopped after {len(out)} of {len(rl)} cases")
+            for (ty, pp, v), l in zip(rmeta, out):
+                ho, hd = fields_of(l)
+                if prof == "release":
+                    ctx.count_case(("rt", ty, tuple(x.bit_length() for x in v)))
+                why = None
+                if ho != "ok" or hd.get("rest") != "0":
+                    why = f"the real reader does not accept the real writer's bytes: {ho}"
+                elif hd.get("fa") != hd.get("fb"):
+                    why = f"object written with [{hd.get('fa')}] reads back as [{hd.get('fb')}]"
+                elif hd.get("eq") != "1":
+                    why = "object read back is != the object written (fields printed are equal: difference is in data / seeds / unexposed fields)"
+                elif hd.get("same_bytes") != "1":
+                    why = "re-serialising the object read back gives different bytes"
+                if why is None:
+                    try:
+                        pw = parse(ty, bytes.fromhex(hd["W"]))
+                        expF, seedv = rt_expect(ty, list(pp), v)
+                        if expF is not None and pw["F"] != expF:
+                            why = f"writer's header fields {pw['F']} differ from the construction values {expF}"
+                        if why is None and seedv is not None:
+                            k0 = 0
+                            for c, bts in pw["S"]:
+                                want = b"".join(seedpat(seedv, i) for i in range(c))
+                                if bts != want:
+                                    why = "writer's seed bytes differ from the seeds set on the object"
+                    except (ParseError, ValueError, KeyError) as e:
+                        why = f"writer's stream unparsable: {e}"
+                if why:
+                    if ty == "glwe_public_key" and v[0] in (1, 3) and v[1] % 256 != 0 and "dist:" in why:
+                        known_counts[KEY_DIST] += 1
+                        known_first.setdefault(KEY_DIST, {"type": ty, "v": v, "why": why})
+                        continue
+                    ctx.oracle_failures += 1
+                    if len(rt_fail) < 20:
+                        rt_fail.append({"type": ty, "p": list(pp), "v": v, "profile": prof, "why": why, "impl": l[:500],
+                                        "rerun": f"printf '0 rt type={ty} p={','.join(map(str, pp))} v={','.join(map(str, v))}\\n' | harness/target/release/pvh ser"})
+        ctx.cov["round_trip_cases"] = len(rl)
+        if rt_fail:
+            oracle_fail += rt_fail
 
         # ---- Distribution round trip on the real code
         dl = []
